@@ -33,7 +33,7 @@ pub struct Case {
     pub exact: bool,
 }
 
-pub const KINDS: [Kind; 7] = [
+pub const KINDS: [Kind; 9] = [
     Kind::F32,
     Kind::F64,
     Kind::Int { bits: 16, signed: true },
@@ -41,6 +41,8 @@ pub const KINDS: [Kind; 7] = [
     Kind::Int { bits: 8, signed: false },
     Kind::Int { bits: 24, signed: true },
     Kind::Int { bits: 48, signed: false },
+    Kind::Int { bits: 64, signed: false },
+    Kind::Int { bits: 64, signed: true },
 ];
 
 /// is this build using the approximate (no_std) square root?
@@ -188,6 +190,14 @@ where
                         }
                     }
                 }
+                if squared {
+                    // current() after next_squared() is the square root of what next_squared() just returned
+                    let cur = rms.current();
+                    for ch in 0..C {
+                        let want = FloatSample::sample_sqrt(out[ch]);
+                        ensure!(fl_to_f64(cur[ch]).to_bits() == fl_to_f64(want).to_bits(), "op #{} channel {}: current() = {} after next_squared() returned {} (square root {})", k, ch, fl_to_f64(cur[ch]), fl_to_f64(out[ch]), fl_to_f64(want));
+                    }
+                }
                 if !squared {
                     let cur = rms.current();
                     for ch in 0..C {
@@ -237,6 +247,10 @@ pub fn check(c: &Case, st: &mut Stats) -> CheckResult {
         chans!(I24)
     } else if k == <U48 as Fmt>::KIND {
         chans!(U48)
+    } else if k == <u64 as Fmt>::KIND {
+        chans!(u64)
+    } else if k == <i64 as Fmt>::KIND {
+        chans!(i64)
     } else {
         Err("bad case: format not instantiated".into())
     }
@@ -256,7 +270,7 @@ fn value(exact: bool) -> BoxedStrategy<f64> {
 }
 
 pub fn case_strategy(max_mult: usize) -> impl Strategy<Value = Case> {
-    (0usize..7, proptest::sample::select(vec![1usize, 2, 5]), prop_oneof![4 => 1usize..=64, 1 => proptest::sample::select(vec![100usize, 1000])], any::<bool>(), 0usize..8).prop_flat_map(
+    (0usize..9, proptest::sample::select(vec![1usize, 2, 5]), prop_oneof![4 => 1usize..=64, 1 => proptest::sample::select(vec![100usize, 1000])], any::<bool>(), 0usize..8).prop_flat_map(
         move |(ki, channels, n, exact, profile)| {
             let len = (n * max_mult).min(3000).max(4);
             let push = proptest::collection::vec(value(exact), channels);
@@ -343,7 +357,7 @@ pub fn case_strategy(max_mult: usize) -> impl Strategy<Value = Case> {
 /// the part of C11 that both configurations run
 pub fn run_core(ctx: &mut Ctx) {
     ctx.set_rule(
-        "cases are (format out of f32, f64, i16, i32, u8, I24, U48; 1, 2 or 5 channels; window length N in 1..=64 or {100, 1000}; history of push / push-squared / reset operations of up to 50 x N (max 3000) \
+        "cases are (format out of f32, f64, i16, i32, u8, I24, U48, u64, i64; 1, 2 or 5 channels; window length N in 1..=64 or {100, 1000}, plus constructed cases with N around 2^16 and above; history of push / push-squared / reset operations of up to 50 x N (max 3000) \
          operations, with value profiles random, loud-then-silent, constant, alternating sign, loud / far quieter but non-zero / reset / ordinary, first channel silent while the others carry on, quiet throughout (x 1e-4); the detector may be replaced by its clone at any point; exact flag = all values on the grid k/64); long single runs of 1e5 (thorough 1e6) pushes; \
          non-trivial: history longer than the window, or a reset after non-zero input, or an integer or multi-channel format",
     );
@@ -385,6 +399,13 @@ pub fn run_core(ctx: &mut Ctx) {
                     cases.push(Case { kind, channels, n, ops, exact: false });
                 }
             }
+        }
+    }
+    // window lengths around 2^16 and above (a few pushes into a very long, zero-initialised window)
+    for &kind in &[Kind::F32, Kind::F64, Kind::Int { bits: 16, signed: true }] {
+        for n in [65_535usize, 65_536, 65_537, 144_000] {
+            let ops = vec![Op::Push(vec![0.5]), Op::Push(vec![-0.5]), Op::PushSquared(vec![0.25]), Op::Push(vec![0.5]), Op::Reset, Op::Push(vec![0.25])];
+            cases.push(Case { kind, channels: 1, n, ops, exact: true });
         }
     }
     ctx.enumerate("loud-quiet-reset-quiet", true, cases.into_iter(), check);
